@@ -10,6 +10,7 @@ import vlib, starkgen
 from vlib import log
 
 PROVER = ("prover-ood", "prover-lde", "prover-comp")
+OODX = ("ood-verifier-disagrees",)
 ALGEBRAIC = ("InconsistentOodConstraintEvaluations", "FriVerificationFailed")
 
 
@@ -177,10 +178,15 @@ def judge(v, res, stages, pid):
         sc = res["byid"].get(sid, {})
         if stage == "shape":
             raise vlib.ToolError("Trace_Verifier: the recorded proof does not have the shape the specification expects (%s)" % describe(sc))
-        mine = (stage in stages) if stages is not None else stage not in ("ood", "coefficients") + PROVER
+        mine = (stage in stages) if stages is not None else stage not in ("ood", "coefficients") + PROVER + OODX
         if not mine:
             continue
-        if verdict == "accept" and stage in PROVER:
+        if stage == "ood-verifier-disagrees":
+            v.violation("vmodel/verifier-ood-disagrees",
+                        "verify() rejects a proof as InconsistentOodConstraintEvaluations although the composition of all constraints on the out-of-domain frame, "
+                        "evaluated from its definition with the coefficients the verifier drew, equals the H(z) the proof sends: the verifier's evaluation of the "
+                        "expression differs from the definition (%s)" % describe(sc), sc)
+        elif verdict == "accept" and stage in PROVER:
             what = {"prover-ood": "the out-of-domain frame it sends is not the evaluation of the trace polynomials (interpolants of the columns the prover was given) at z and g z",
                     "prover-lde": "a trace row it opens is not the evaluation of the trace polynomials at the queried point of the LDE domain",
                     "prover-comp": "at a queried point x the opened composition columns do not add up to the composition of all constraints evaluated on the trace "
